@@ -305,6 +305,104 @@ def r7(ctx, rep):
                   file=f["file"], line=f["l"], fn=f["path"])
 
 
+def dialect_matrix(syn):
+    defaults, mat = {}, {}
+    for f in syn.fns:
+        if "body" not in f:
+            continue
+        if f.get("self_short") == "DialectHandler" and f.get("trait_default"):
+            t = tail_expr(f["body"])
+            defaults[f["name"]] = (show(t) if t is not None else "?", f)
+        elif f.get("trait_short") == "DialectHandler":
+            t = tail_expr(f["body"])
+            mat.setdefault(f["self_short"], {})[f["name"]] = (show(t) if t is not None else "?", f)
+    return defaults, mat
+
+
+def effective(defaults, mat, handler, flag, depth=0):
+    v, f = mat.get(handler, {}).get(flag, defaults.get(flag, (None, None)))
+    if v is not None and v.startswith("self.") and v.endswith("()") and depth < 3:
+        return effective(defaults, mat, handler, v[5:-2], depth + 1)[0], f
+    return v, f
+
+
+def r8(ctx, rep):
+    rep.rule("C07.R8", "dialect capability flags do not claim a feature the engine lacks", floor=31)
+    syn = ctx.syn
+    defaults, mat = dialect_matrix(syn)
+    with open(os.path.join(os.path.dirname(os.path.dirname(os.path.dirname(os.path.abspath(__file__)))), "oracles", "dialect_caps.json")) as fh:
+        rows = json.load(fh)["rows"]
+    handlers = {i["self_short"] for i in syn.impls if i.get("trait_short") == "DialectHandler"}
+    for handler, flag, want, why in rows:
+        key = f"cap:{handler}.{flag}"
+        if handler not in handlers:
+            rep.bad(key, f"dialect handler {handler} not found")
+            continue
+        if flag not in defaults:
+            rep.bad(key, f"DialectHandler::{flag} not found")
+            continue
+        got, f = effective(defaults, mat, handler, flag)
+        norm = (got or "").strip("'")
+        rep.check(norm == want, key,
+                  f"{handler}::{flag}() is `{got}` but the engine requires `{want}` ({why}): the generator would emit syntax this dialect cannot parse",
+                  file=f["file"] if f else None, line=f["l"] if f else None, fn=f["path"] if f else None)
+
+
+def r9(ctx, rep):
+    rep.rule("C07.R9", "WITH RECURSIVE is decided by ANY recursive CTE (monotone accumulation)", floor=1)
+    syn = ctx.syn
+    f = syn.fn("gen_query::translate_query", crate="prqlc", file_suffix="sql/gen_query.rs")
+    var = None
+    for n in walk(f["body"]):
+        if n.get("k") == "struct" and last_seg(n["p"]) == "With":
+            for fname, fv in n["f"]:
+                if fname == "recursive":
+                    var = show(fv)
+    if var is None:
+        raise AnchorMissing("translate_query: no `With { recursive, .. }` literal")
+    n_assign = 0
+    for loop in [n for n in walk(f["body"]) if n.get("k") in ("for", "while", "loop")]:
+        for a in walk(loop["body"]):
+            if a.get("k") == "assign" and show(a["lhs"]) == var:
+                n_assign += 1
+                rhs = a["rhs"]
+                ok = rhs.get("k") == "bin" and rhs["op"] == "||" and var in (show(rhs["lhs"]), show(rhs["rhs"]))
+                rep.check(ok, f"accumulate:{var}",
+                          f"`{var} = {show(rhs)}` inside the CTE loop overwrites the flag: only the last CTE would decide whether WITH RECURSIVE is emitted "
+                          f"(expected `{var} = {var} || ..`)", file=f["file"], line=a["l"], fn=f["path"])
+            if a.get("k") == "bin" and a["op"] == "|=" and show(a["lhs"]) == var:
+                n_assign += 1
+                rep.ok(f"accumulate:{var}")
+    if n_assign == 0:
+        rep.bad(f"accumulate:{var}", f"`{var}` is never updated from the translated CTEs", file=f["file"], line=f["l"], fn=f["path"])
+
+
+def r10(ctx, rep):
+    import flow
+    rep.rule("C07.R10", "a table taken for definition is re-armed for later references or emitted as a CTE on every non-error path", floor=1)
+    syn = ctx.syn
+    f = syn.fn("pq::gen_query::compile_relation_instance", crate="prqlc")
+    target = None
+    for n in walk(f["body"]):
+        if n.get("k") == "if" and n["c"].get("k") == "let" and "take_to_define()" in show(n["c"]["e"]):
+            target = n
+    if target is None:
+        raise AnchorMissing("compile_relation_instance: no `if let .. = decl.relation.take_to_define()`")
+
+    def marker(n):
+        if n.get("k") == "assign" and show(n["lhs"]).endswith(".relation") and "NotYetDefined" in show(n["rhs"]):
+            return True
+        if n.get("k") == "mcall" and n["m"] == "push" and show(n["r"]).endswith("ctes"):
+            return True
+        return False
+
+    bad = flow.must_precede_exits(target["t"], marker)
+    rep.check(not bad, "take_to_define",
+              f"after `take_to_define()` the declaration is empty: exit(s) {bad} leave it neither restored (`decl.relation = NotYetDefined(..)`) nor "
+              "pushed to `ctx.ctes`, so a later reference by name points at a CTE that is never emitted",
+              file=f["file"], line=bad[0][0] if bad and isinstance(bad[0][0], int) else target["l"], fn=f["path"])
+
+
 def run(ctx, rep):
-    for r in (r1, r2, r3, r4, r5, r6, r7):
+    for r in (r1, r2, r3, r4, r5, r6, r7, r8, r9, r10):
         rep.guard(r, ctx)
